@@ -136,9 +136,12 @@ class numberwithin(Command):
         target_cnt = ctx.counters[target]
         target_cnt.resetby = control
 
-        # Formatting
-        ctx['the'+target].format = '{}.${{{}}}'.format(
-                ctx['the'+control].format, target)
+        # Formatting (on a class of its own: the class found in the context
+        # can be shared with other documents, e.g. \appendix's \thesection)
+        the = ctx['the'+target]
+        ctx['the'+target] = type(the.__name__, (the,), {
+            '__module__': the.__module__,
+            'format': '{}.${{{}}}'.format(ctx['the'+control].format, target)})
 
 class eqref(Command):
     args = 'label:idref'
